@@ -186,3 +186,18 @@ check(
     "DESIGN.md section 3 C09",
     "unitlab",
 )
+
+ENGINES[0]["serves_properties"].append("C10")
+check(
+    "C10",
+    "exploration",
+    "Hypothesis parameters of the sqrt / monotonic / linear poloidal spacing constructors, directly and through "
+    "getSfuncFixedSpacing for every region kind and guard count: s(0)=0, s(N)=L, strictly increasing over the indices "
+    "used or refused by the run-time guard, requested end behaviour in normalised index (Richardson limits), "
+    "resolution consistency s_{2N,2N_norm}(2i)=s_{N,N_norm}(i), equal spacing either side of an X-point join; grid "
+    "level: ny -> 2ny derived orthogonal grids keep every original y-face.",
+    "Trusted base: Richardson error estimates as stated; ValueError is the documented refusal.",
+    "Hypothesis PBT with algebraic and metamorphic (resolution-doubling) oracles",
+    "DESIGN.md section 3 C10",
+    "unitlab",
+)
